@@ -38,11 +38,16 @@ func (ip *indexPersist) load() ([]pointer, error) {
 }
 
 func (ip *indexPersist) prepare(start int) func() error {
+	// The persist lock is taken here, while the caller still holds the index lock, and is
+	// released by the returned function. Snapshots therefore reach the file in the order
+	// in which they were taken: a snapshot taken before a later mutation can no longer be
+	// written after (and over) that mutation's own snapshot. Every caller must invoke the
+	// returned function exactly once.
+	ip.p.Lock()
 	pointerEncoded := ip.p.encode(start, ip.idx.mu.pointers)
 	lenOfPointers := len(ip.idx.mu.pointers)
 
 	return func() error {
-		ip.p.Lock()
 		defer ip.p.Unlock()
 
 		err := ip.p.Truncate(int64(lenOfPointers) * pointerByteSize)
